@@ -1,6 +1,7 @@
 """C12 — A copy is equivalent to its original and shares nothing with it."""
 from contracts import misc_small  # noqa
 from contracts import c12_rxn_arith as ARITH
+from contracts import w_model_small as WMS
 from props._generic import run_property, replay_with_driver
 
 LEVEL = "other"
@@ -8,7 +9,11 @@ KEYS = ["Reaction.copy", "Model.__setstate__", "Reaction.update_variable_bounds"
 
 
 def run(rep):
-    run_property(rep, KEYS, more=list(ARITH.GROUPS), lemmas=ARITH.lemmas, explanation=(
+    run_property(rep, KEYS, more=list(ARITH.GROUPS) + [(["Model.tolerance@setter"], WMS.HOOKS)], lemmas=ARITH.lemmas, explanation=(
+        "The Model.tolerance setter (an assumed contract until round 5) is proved against its body: every optlang tolerance "
+        "(feasibility, optimality, integrality) the interface supports is set to the value on the tolerances object of this "
+        "model's solver configuration, an unsupported one is left alone (AttributeError swallowed), self._tolerance is set on every "
+        "path, nothing else is written; Model.__setstate__ uses that proved contract at its call site. "
         "Deductive part: Reaction.copy is proved (two loop invariants over the recorded (member, model) pairs, built from the "
         "reaction's metabolites and genes in any iteration order) to return a different, detached object and to leave EVERY model "
         "pointer of the operand, its metabolites and its genes as found on normal return - also for a reaction that has been removed "
@@ -21,7 +26,7 @@ def run(rep):
         "copy/deepcopy and the solver's own deep copy; its separation property is not within the verifier's reach: bounded driver "
         "(snapshot equality of copy/deepcopy/pickle incl. the solver problem, then every edit and depth-2 edit sequence incl. in-place "
         "edits of notes/annotations applied to one side with the other side compared, reaction arithmetic operands unchanged)."),
-        trusted=["copy.copy / copy.deepcopy / pickle (assumed)", "Model.tolerance setter touches only the solver configuration (assumed contract)", "an exception inside deepcopy would leave the pointers cleared "
+        trusted=["copy.copy / copy.deepcopy / pickle (assumed)", "optlang: solver.configuration.tolerances is a function of the solver object; assigning a tolerance attribute stores the value there or raises AttributeError with nothing written (ghost predicate tol_supported); logger / interface_to_str opaque", "an exception inside deepcopy would leave the pointers cleared "
                  "(no try/finally in Reaction.copy): outside the contract's normal-return case"])
 
 
